@@ -33,6 +33,7 @@ structure DField where
   ftype : FType
   name : String
   arrayLength : UInt8
+  isArray : Bool                  -- Go array, or string with a mavlen tag (feeds its length into CRC_EXTRA)
   index : Nat
   isExt : Bool
   goIsArray : Bool
@@ -90,20 +91,20 @@ def initField (i : Nat) (f : GoField) : Except InitErr DField := do
     | some t =>
       if !Gen.enumCapable t then throw .enumType
       pure { isEnum := true, ftype := t, name := if f.mavname ≠ "" then f.mavname else fieldGoToDef f.goName,
-             arrayLength := arrayLength0, index := i, isExt := f.mavext == "true",
+             arrayLength := arrayLength0, isArray := f.isArray, index := i, isExt := f.mavext == "true",
              goIsArray := f.isArray, goArrLen := f.arrLen }
   else
     match Gen.fieldTypeFromGo f.elemType with
     | none => throw .unsupported
     | some t =>
-      let al ← (if f.elemType == "string" then
-          (if f.mavlen.length == 0 then pure (1 : UInt8)
+      let (al, isArr) ← (if f.elemType == "string" then
+          (if f.mavlen.length == 0 then pure ((1 : UInt8), f.isArray)
            else match atoi f.mavlen with
              | none => throw InitErr.strLen
-             | some n => pure (byteOfInt n))
-        else pure arrayLength0 : Except InitErr UInt8)
+             | some n => pure (byteOfInt n, true))
+        else pure (arrayLength0, f.isArray) : Except InitErr (UInt8 × Bool))
       pure { isEnum := false, ftype := t, name := if f.mavname ≠ "" then f.mavname else fieldGoToDef f.goName,
-             arrayLength := al, index := i, isExt := f.mavext == "true",
+             arrayLength := al, isArray := isArr, index := i, isExt := f.mavext == "true",
              goIsArray := f.isArray, goArrLen := f.arrLen }
 
 def DField.size (f : DField) : UInt8 :=
@@ -136,7 +137,7 @@ def crcExtraOf (msgName : String) (sorted : List DField) : UInt8 :=
     if f.isExt then h else
       let h := X25.write h (strBytes (Gen.fieldTypeString f.ftype ++ " "))
       let h := X25.write h (strBytes (f.name ++ " "))
-      if f.arrayLength > 0 then X25.write h [f.arrayLength] else h) h0
+      if f.isArray then X25.write h [f.arrayLength] else h) h0
   Gen.crcExtraFold h
 
 def init (s : GoStruct) : Except InitErr RW := do
